@@ -523,4 +523,154 @@ theorem complete_core {T : Topo} (cl : Cluster T) (mc : MastersConnected T) {ori
         hown _ _ hup (Anc.refl _) h0 hs0 e hMe rfl
 
 
+
+/-! ### per-node forwarding (the clauses `master_by_names_and_connectedness`, `forwarded_when_reachable`) -/
+
+section Forward
+variable {T : Topo} {self : Ep}
+
+theorem masterIsB_of_getMaster {m : Ep} (h : getMaster T self = some m) : masterIsB T self m = true := by
+  unfold getMaster at h
+  have hmem := List.mem_filter.mp (minEp_mem h)
+  unfold masterIsB
+  simp only [Bool.and_eq_true, List.contains_iff_mem, List.all_eq_true, Bool.or_eq_true, Bool.not_eq_true',
+    decide_eq_true_eq]
+  refine ⟨⟨hmem.1, by simpa using hmem.2⟩, ?_⟩
+  intro y hy
+  by_cases hc : (T.conn self y || y == self) = true
+  · right; exact minEp_le h y (List.mem_filter.mpr ⟨hy, hc⟩)
+  · left; simpa using hc
+
+theorem getMaster_of_masterIsB {x : Ep} (h : masterIsB T self x = true) : getMaster T self = some x := by
+  unfold masterIsB at h
+  simp only [Bool.and_eq_true, List.contains_iff_mem, List.all_eq_true, Bool.or_eq_true, Bool.not_eq_true',
+    decide_eq_true_eq] at h
+  obtain ⟨⟨hx, hcx⟩, hall⟩ := h
+  have hxf : x ∈ (T.eps self (T.zoneOf self)).filter (fun e => T.conn self e || e == self) :=
+    List.mem_filter.mpr ⟨hx, by simpa using hcx⟩
+  cases hm : getMaster T self with
+  | none =>
+    unfold getMaster at hm
+    rw [minEp_eq_none.mp hm] at hxf; cases hxf
+  | some m =>
+    unfold getMaster at hm
+    have h1 := minEp_le hm x hxf
+    have hmf := List.mem_filter.mp (minEp_mem hm)
+    have h2 : x ≤ m := by
+      rcases hall m hmf.1 with h | h
+      · have := hmf.2; rw [h] at this; cases this
+      · exact h
+    congr 1
+    eomega
+
+theorem relayZone_sub_relayFuel (hd : Detached T) {o : Origin} {oz : Option Zone} {log : Bool} {fuel : Nat} {cz : Zone}
+    (h : if T.isGlobal (targetZone T self oz) = true then
+        cz = T.zoneOf self ∨ (cz ∈ T.zones ∧ T.parent cz = some (T.zoneOf self))
+      else cz ∈ targetZone T self oz :: allParents T fuel (targetZone T self oz) ∧ related T self cz = true)
+    {e : Ep} (he : e ∈ (relayZone T self o (getMaster T self) cz).sent) : e ∈ (relayFuel fuel T self o oz log).sent := by
+  obtain ⟨z, hz, hrel, hcz⟩ := zone_relayed hd (self := self) (oz := oz) (fuel := fuel) (cz := cz) h
+  exact (mem_relayFuel_sent T self o).mpr ⟨z, hz, (mem_relayOne_sent T self o _).mpr ⟨hrel, cz, hcz, he⟩⟩
+
+theorem related_of_directlyRelated {z : Zone} (h : directlyRelated T self z = true) : related T self z = true := by
+  unfold directlyRelated at h; unfold related
+  simp only [Bool.or_eq_true] at h ⊢
+  rcases h with (h | h) | h
+  · exact Or.inl (Or.inl (Or.inr h))
+  · exact Or.inl (Or.inr h)
+  · exact Or.inr h
+
+/-- an entitled, directly related zone of the candidate list is one the relay step runs the inner loop for -/
+theorem candidate_relayed (c : Case) {fuel : Nat} {z : Zone} (hzc : z ∈ candidateZones T c.self c.objZone)
+    (hrel : directlyRelated T c.self z = true) (hent : entitledB fuel T c.self c.objZone z = true) :
+    if T.isGlobal (targetZone T c.self c.objZone) = true then
+      z = T.zoneOf c.self ∨ (z ∈ T.zones ∧ T.parent z = some (T.zoneOf c.self))
+    else z ∈ targetZone T c.self c.objZone :: allParents T fuel (targetZone T c.self c.objZone) ∧ related T c.self z = true := by
+  unfold entitledB at hent
+  by_cases hg : T.isGlobal (targetZone T c.self c.objZone) = true
+  · simp only [hg, if_true, Bool.or_eq_true, beq_iff_eq] at hent ⊢
+    unfold candidateZones at hzc
+    simp only [hg, if_true, List.mem_cons] at hzc
+    rcases hent with h | h
+    · exact Or.inl h
+    · rcases hzc with h' | h'
+      · exact Or.inl h'
+      · exact Or.inr ⟨h', h⟩
+  · simp only [hg, Bool.false_eq_true, if_false] at hent ⊢
+    exact ⟨(isChildOfFuel_iff T fuel _ _).mp hent, related_of_directlyRelated hrel⟩
+
+theorem peer_due_sent (hd : Detached T) (c : Case) {fuel : Nat}
+    (hent : entitledB fuel T c.self c.objZone (T.zoneOf c.self) = true) {p : Ep} (hp : p ∈ T.eps c.self (T.zoneOf c.self))
+    (hdue : peerDueB T c p = true) : p ∈ queued T c.self (relayFuel fuel T c.self c.origin c.objZone c.log) := by
+  unfold peerDueB at hdue
+  simp only [Bool.and_eq_true, bne_iff_ne, ne_eq, Bool.not_eq_true', Bool.or_eq_true] at hdue
+  obtain ⟨⟨⟨⟨⟨hne, hc⟩, hsync⟩, hcl⟩, hfz⟩, hm⟩ := hdue
+  unfold queued
+  rw [List.mem_filter]
+  refine ⟨?_, by simp [hsync]⟩
+  have hcand : T.zoneOf c.self ∈ candidateZones T c.self c.objZone := by
+    unfold candidateZones; split <;> exact List.mem_cons_self
+  apply relayZone_sub_relayFuel hd (candidate_relayed c hcand (by simp [directlyRelated]) hent)
+  apply relayZone_own_sends T c.self c.origin _ _ rfl hp hne hc
+  unfold blocked0
+  have h1 : (c.origin.client == some p) = false := by simpa using hcl
+  have h2 : (c.origin.fromZone == some (T.zoneOf c.self)) = false := by simpa using hfz
+  rw [h1, h2]
+  rcases hm with h | h <;> simp [getMaster_of_masterIsB h]
+
+theorem zone_due_sent (hd : Detached T) (c : Case) {fuel : Nat} {z : Zone} (hzc : z ∈ candidateZones T c.self c.objZone)
+    (hrel : directlyRelated T c.self z = true) (hent : entitledB fuel T c.self c.objZone z = true)
+    (hdue : zoneDueB T c z = true) :
+    ∃ e, e ∈ queued T c.self (relayFuel fuel T c.self c.origin c.objZone c.log) ∧ e ∈ T.eps c.self z := by
+  unfold zoneDueB at hdue
+  simp only [Bool.and_eq_true, bne_iff_ne, ne_eq, List.all_eq_true, List.any_eq_true, Bool.not_eq_true'] at hdue
+  obtain ⟨⟨⟨⟨_, hm⟩, hfz⟩, hall⟩, x, hx, hxne, hxc⟩ := hdue
+  have hmaster := getMaster_of_masterIsB hm
+  have hb : blocked0 c.self c.origin (getMaster T c.self) z x = false := by
+    unfold blocked0
+    have h1 : (c.origin.client == some x) = false := by simpa using (hall x hx).1
+    have h2 : (c.origin.fromZone == some z) = false := by simpa using hfz
+    rw [h1, h2, hmaster]; simp
+  obtain ⟨e, he⟩ := relayZone_foreign_sends T c.self c.origin (getMaster T c.self) z ⟨x, hx, hxne, hxc, hb⟩
+  have hmem := (relayZone_sent_eligible T c.self c.origin _ z he).1
+  refine ⟨e, ?_, hmem⟩
+  unfold queued
+  rw [List.mem_filter]
+  exact ⟨relayZone_sub_relayFuel hd (candidate_relayed c hzc hrel hent) he, by simp [(hall e hmem).2]⟩
+
+/-- two nodes of one zone with the same view of it name the same master -/
+theorem same_master_aux {a b : Ep}
+    (hmem : ∀ x, x ∈ T.eps a (T.zoneOf a) ↔ x ∈ T.eps b (T.zoneOf b))
+    (hview : ∀ x ∈ T.eps a (T.zoneOf a), (T.conn a x || x == a) = (T.conn b x || x == b)) :
+    getMaster T a = getMaster T b := by
+  have hsub : ∀ x, x ∈ (T.eps a (T.zoneOf a)).filter (fun e => T.conn a e || e == a) ↔
+      x ∈ (T.eps b (T.zoneOf b)).filter (fun e => T.conn b e || e == b) := by
+    intro x
+    simp only [List.mem_filter]
+    constructor
+    · rintro ⟨h1, h2⟩; exact ⟨(hmem x).mp h1, by rw [← hview x h1]; exact h2⟩
+    · rintro ⟨h1, h2⟩
+      have h1' := (hmem x).mpr h1
+      exact ⟨h1', by rw [hview x h1']; exact h2⟩
+  unfold getMaster
+  generalize (T.eps a (T.zoneOf a)).filter (fun e => T.conn a e || e == a) = l1 at hsub
+  generalize (T.eps b (T.zoneOf b)).filter (fun e => T.conn b e || e == b) = l2 at hsub
+  cases h1 : minEp l1 with
+  | none =>
+    have := minEp_eq_none.mp h1; subst this
+    cases h2 : minEp l2 with
+    | none => rfl
+    | some m => have := (hsub m).mpr (minEp_mem h2); cases this
+  | some m1 =>
+    cases h2 : minEp l2 with
+    | none =>
+      have := minEp_eq_none.mp h2; subst this
+      have := (hsub m1).mp (minEp_mem h1); cases this
+    | some m2 =>
+      have a1 := minEp_le h1 m2 ((hsub m2).mpr (minEp_mem h2))
+      have a2 := minEp_le h2 m1 ((hsub m1).mp (minEp_mem h1))
+      congr 1
+      eomega
+
+end Forward
+
 end Icinga.C11
